@@ -269,8 +269,26 @@ def snapkeys_goals(g, a, b, q):
 # ---- whole invariant -----------------------------------------------------------------------------
 
 def inv_assume(ctx, g, view, nodes, pairs, shape_pairs=None, k=2, removal=True):
-    """assume Inv(g) in hypothesis form, by category, instantiated for the given terms"""
-    ctx.assume(shape_h(g, nodes, list(pairs) + list(shape_pairs or []), quantified=not getattr(ctx, 'bounded', False)), 'shape')
+    """assume Inv(g) in hypothesis form, by category, instantiated for the given terms.
+    ctx.inv_cats (optional) restricts the categories a caller-side proof needs (dropping hypotheses is sound)."""
+    cats = getattr(ctx, 'inv_cats', None)
+    if cats is not None:
+        ctx.assume(shape_h(g, nodes, list(pairs) + list(shape_pairs or []), quantified=True), 'shape')
+        for (a, b) in pairs:
+            if 'canon' in cats:
+                ctx.assume(canon_h(g, a, b), 'canon')
+            if 'link' in cats:
+                ctx.assume(link_h(g, view, a, b), 'link')
+            if 'snapkeys' in cats:
+                ctx.assume(snapkeys_h(g, a, b), 'snapkeys')
+            if 'events' in cats and removal:
+                ctx.assume(events_h(g, view, a, b, k), 'events')
+        return
+    if len(pairs) > 6:
+        # many pairs: the quantified shape facts + mirror/ownership instances only (no quadratic ownership instances)
+        ctx.assume(shape_h(g, nodes, [], quantified=True), 'shape')
+    else:
+        ctx.assume(shape_h(g, nodes, list(pairs) + list(shape_pairs or []), quantified=not getattr(ctx, 'bounded', False)), 'shape')
     ctx.assume(tte_h(g), 'tte')
     for (a, b) in pairs:
         ctx.assume(canon_h(g, a, b), 'canon')
